@@ -91,6 +91,9 @@ class DerivationTree:
     def to_json(self) -> str:
         # The k-path caches are not serialized. We must not remove them from the
         # live object(s), and have to omit them for *all* nodes of the tree.
+        # The cached hashes are not serialized either: they depend on the string
+        # hashes of the running interpreter (PYTHONHASHSEED) and are wrong in any
+        # other process that loads the tree.
         def to_dict(node: "DerivationTree") -> dict:
             return {
                 key: value
@@ -99,6 +102,8 @@ class DerivationTree:
                 not in (
                     "_DerivationTree__k_paths",
                     "_DerivationTree__concrete_k_paths",
+                    "_DerivationTree__hash",
+                    "_DerivationTree__structural_hash",
                 )
             }
 
@@ -127,6 +132,10 @@ class DerivationTree:
                 )
 
             result.__dict__.update(a_dict)
+
+            # Hashes are recomputed on demand in the loading interpreter.
+            result.__hash = None
+            result.__structural_hash = None
 
             # To ensure that when resuming from a checkpoint during debugging,
             # ID uniqueness constraints are maintained.
